@@ -116,7 +116,7 @@ PROPS = {
     'C20': dict(
         parts=[dict(harness='C20o', judge='C20o', cases=dict(quick=2500, thorough=25000), judge_module='Judge.J20', judge_fn='judge_C20o', extra_args=['-timeout', '3']),
                dict(harness='C20m', judge='C20m', cases=dict(quick=1500, thorough=15000), extra_args=['-timeout', '3']),
-               dict(harness='C20e', judge='C20e', cases=dict(quick=1500, thorough=15000), extra_args=['-timeout', '3'])],
+               dict(harness='C20e', judge='C20e', cases=dict(quick=1500, thorough=15000), extra_args=['-timeout', '6'])],
         rule='solver.Optimal on the C03 problems (API route), maxsat Optimal on WCNF instances, Enumerate on the C05 problems, each with '
              'a result channel of capacity 0/0/1/3/64 and a consumer that sleeps 0, <200us or <2ms (seeded) between receives; the '
              'consumer-side trace (values, close, return value) must be accepted by the protocol acceptor of the channel model, every '
